@@ -136,6 +136,7 @@ func e4Function(c *Ctx, s *obSink, fn *ssa.Function, closure map[*ssa.Function]b
 	in := inputParam(fn)
 	a := newLinAn(c, fn, in)
 	a.condFacts()
+	a.tableFacts()
 	a.facts = append(a.facts, fact{f: symF("L"), why: "len(b) >= 0"})
 	fname := shortFn(fn)
 	isCopy := fname == "unknownFields.Copy"
@@ -582,4 +583,26 @@ func skipWrapperOf(f *ssa.Function) int {
 		}
 	}
 	return -1
+}
+
+// globalWritten: some function of the module other than package initialisation stores into the global (or an element of it).
+func (c *Ctx) globalWritten(g *ssa.Global) bool {
+	if c.gwMemo == nil {
+		c.gwMemo = map[*ssa.Global]bool{}
+		for _, fn := range c.ModuleFuncs() {
+			if isInitFn(fn) {
+				continue
+			}
+			for _, b := range fn.Blocks {
+				for _, ins := range b.Instrs {
+					if st, ok := ins.(*ssa.Store); ok {
+						if rg := rootGlobal(st.Addr); rg != nil {
+							c.gwMemo[rg] = true
+						}
+					}
+				}
+			}
+		}
+	}
+	return c.gwMemo[g]
 }
